@@ -379,6 +379,28 @@ pub fn int_subjects(tier: Tier, out: &mut Vec<Subj>) {
             out.push(Subj { decl: d, tag: format!("int/{}/const_fn={cf}", t.name()), serde_full: false });
         }
     }
+    // single bound validators with the bound next to the extreme of the type (incl. u128 bounds above
+    // i128::MAX and i128 bounds near MIN): messages must print them as the inner type does (C16)
+    let ext_types: Vec<IntTy> = match tier {
+        Tier::Quick => vec![IntTy::U128, IntTy::I128, IntTy::U64, IntTy::I8],
+        Tier::Thorough => ALL_INT.to_vec(),
+    };
+    for (ti, t) in ext_types.iter().enumerate() {
+        for k in 0..4usize {
+            let (lo1, hi1) = (add_v(&(*t).min(), 1), sub_v(&(*t).max(), 1));
+            let form = if (ti + k) % 2 == 0 { Form::Lit } else { Form::Const };
+            let vd = match k {
+                0 => Vd::Greater(Bound { v: lo1.clone(), form }),
+                1 => Vd::GreaterOrEqual(Bound { v: lo1.clone(), form }),
+                2 => Vd::Less(Bound { v: hi1.clone(), form }),
+                _ => Vd::LessOrEqual(Bound { v: hi1.clone(), form }),
+            };
+            let mut d = Decl::new("X", Inner::Int(*t));
+            d.validation = Validation::Std(vec![vd]);
+            d.derives = vec![Tr::Debug, Tr::Clone, Tr::Copy, Tr::PartialEq, Tr::TryFrom, Tr::Into, Tr::FromStr, Tr::Display, Tr::Deserialize, Tr::Serialize];
+            out.push(Subj { decl: d, tag: format!("int/{}/extreme-bound", t.name()), serde_full: true });
+        }
+    }
     // Arbitrary-focused: narrow ranges, extremes, expression forms (C09 / C14)
     arbitrary_int_subjects(tier, out);
 }
